@@ -238,14 +238,14 @@ CHECKS['C19'] = dict(
     category='other',
     technique='contract-based deductive verification of the lookup kernels (pyvc, z3/cvc5 strings with str.replace_all '
               'and an uninterpreted casefold), of chain priority lookup and of add_sys search order; bounded differential test of the four backends',
-    text='Zip and VPK _file_exists/_get_file are proved, for every name and every table, to look the file up under the '
-         'single normal form fold(name with backslashes turned into slashes) and to raise FileNotFoundError exactly when '
+    text='Zip, VPK and in-memory _file_exists/_get_file are proved, for every name and every table, to look the file up under the '
+         'single normal form fold(name with backslashes turned into slashes; the in-memory backend through its real _clean_path with os.path.normpath uninterpreted, and proved to hand back the stored entry of that key) and to raise FileNotFoundError exactly when '
          'that key is absent; FileSystemChain._get_file is proved (three symbolic members with arbitrary prefixes) to '
          'return the first member, in order, that has the prefix-joined name, and add_sys to put a priority member first '
          'in the search order (also when it is already mounted) and any other last. Folder walks, byte agreement between the '
          'in-memory / zip / VPK / directory backends, listed-name-looks-up-to-that-file and de-duplicated chain walks are '
          'a bounded differential stand-in over generated file sets - not counted as proved.',
-    note='trusted: casefold uninterpreted, zipfile and VPK I/O, pyvc; for names differing only in case the backends '
+    note='trusted: casefold uninterpreted, os.path.normpath uninterpreted (identity on the names of the property), zipfile and VPK I/O, pyvc; for names differing only in case the backends '
          'may keep different candidates (container order) - accepted; backslash spellings on a real directory are host '
          'dependent and not required.')
 CHECKS['C06'] = dict(
